@@ -470,7 +470,7 @@ fn world_part(cfg: &RunCfg, out: &Out) {
         let seed = cfg.scenario_seed(1_000_000 + k);
         let mut rng = Rng::new(seed);
         let (now, base_ts) = time_base();
-        let params = gen_params(&mut rng, seed, base_ts);
+        let params = gen_params_with_jumps(&mut rng, seed, base_ts);
         let len = gen_len(&mut rng);
         let ccfg = gen_ccfg(&mut rng);
         let mut w = World::new(Chain::generate(params, len), ccfg, seed, now);
